@@ -468,7 +468,22 @@ func runTbl(seed uint64, scale int, out string, _ string) *summary {
 				}
 			}
 			newThread := false
-			if pick < 0 {
+			forceInsert := false
+			if stageName == "shrink" && canN && pick < 0 && sr.chance(45) {
+				// a shrink attempt parked before its CAS on the flag: let an insert come in first, so that the
+				// re-check made under the flag finds the table no longer small enough and gives up
+				ctl.mu.RLock()
+				for _, th := range ctl.threads {
+					if th.state == 'P' && th.hook == 35 {
+						forceInsert = true
+					}
+				}
+				ctl.mu.RUnlock()
+				if forceInsert {
+					newThread = true
+				}
+			}
+			if pick < 0 && !newThread {
 				nn := len(parked)
 				if canN {
 					nn++
@@ -494,6 +509,13 @@ func runTbl(seed uint64, scale int, out string, _ string) *summary {
 						th.op = 2
 					}
 					th.val = 100 + started
+				}
+				if forceInsert {
+					th.kind, th.op, th.val = 'W', 1, 100+started
+					if len(freshOther) > 0 {
+						th.key = freshOther[sr.intn(len(freshOther))]
+					}
+					sum.Dist["insert_before_a_parked_shrink_attempt"]++
 				}
 				ctl.mu.Lock()
 				th.idx = len(ctl.threads)
